@@ -58,6 +58,10 @@ func setupFastlyHeaders(req *http.Request) {
 }
 
 func (i *Interpreter) createBackendRequest(ctx *icontext.Context, backend *value.Backend) (*http.Request, error) {
+	if backend == nil || backend.Value == nil {
+		return nil, exception.Runtime(nil, "Backend is not determined")
+	}
+
 	var port string
 	if v, err := i.getBackendProperty(backend.Value.Properties, "port"); err != nil {
 		return nil, errors.WithStack(err)
@@ -166,6 +170,11 @@ func (i *Interpreter) getOriginHostHeader(backend *value.Backend, defaultHost st
 }
 
 func (i *Interpreter) sendBackendRequest(backend *value.Backend) (*http.Response, error) {
+	// The backend may be replaced in vcl_miss or vcl_pass after the backend request was created
+	if backend == nil || backend.Value == nil {
+		return nil, exception.Runtime(nil, "Backend is not determined")
+	}
+
 	fbt, err := i.getBackendProperty(backend.Value.Properties, "first_byte_timeout")
 	if err != nil {
 		return nil, errors.WithStack(err)
